@@ -288,6 +288,7 @@ def definedness(ctx: Ctx):
         ci = ctx.repo.cls(MM, cname)
         e = expand(ctx.repo, ci, "is_defined", stop=lambda mm: mm.name == "_opposing_numeric_values")
         ctx.check_expr("definedness", f"{MM}::{cname}.is_defined", e, "not np.all(np.isnan(self._opposing_numeric_values))", "absent (None) when no category of the opposing dimension has a numeric value")
+    numeric_value_truthiness(ctx)
     sl = ctx.repo.cls("cubepart.py", "_Slice")
     for o in ("rows", "columns"):
         for stat in ("scale_mean", "scale_median", "scale_mean_stddev", "scale_mean_stderr"):
@@ -449,3 +450,61 @@ def median_tie_neighbour(ctx: Ctx):
         ctx.violated("median.tie-neighbour", where, text, "the next value that has respondents", "the neighbour in VALUE order may be an empty category: the reported median lies between two values although no respondent has the upper one")
     if not hits:
         ctx.held("median.tie-neighbour", "median code", "no tie average with the next category in value order", "")
+
+
+def _is_boolean_valued(e: ast.AST) -> bool:
+    """isnan / isfinite / comparisons / ~ / & / | of such: an array of truth values, not of numeric values"""
+    if isinstance(e, ast.Compare):
+        return True
+    if isinstance(e, ast.UnaryOp) and isinstance(e.op, (ast.Invert, ast.Not)):
+        return _is_boolean_valued(e.operand) or isinstance(e.op, ast.Not)
+    if isinstance(e, ast.BinOp) and isinstance(e.op, (ast.BitAnd, ast.BitOr, ast.BitXor)):
+        return _is_boolean_valued(e.left) and _is_boolean_valued(e.right)
+    if isinstance(e, ast.BoolOp):
+        return True
+    if isinstance(e, ast.Call) and u(e.func) in ("np.isnan", "np.isfinite", "np.isinf", "np.logical_not", "np.logical_and", "np.logical_or", "np.isin", "np.in1d", "isinstance"):
+        return True
+    return False
+
+
+def numeric_value_truthiness(ctx: Ctx):
+    """A category's numeric value may be 0.  `np.any(values)` / `any(values)` / `np.count_nonzero(values)` / `bool(...)` over
+    the numeric VALUES (instead of over `~np.isnan(values)`) asks whether some value is non-zero, not whether some category
+    HAS a value: a scale coded 0 / null reads as undefined and every marginal is None."""
+    from ..stmts import reachable_functions, resolver
+
+    ctl = ast.parse("def is_defined(self):\n    values = self._opposing_numeric_values\n    return bool(np.any(values[~np.isnan(values)]))\ndef ok(self):\n    return not np.all(np.isnan(self._opposing_numeric_values))\n")
+
+    def hits_in(fn):
+        res = resolver(fn, multi=True)
+        out = []
+        for c in ast.walk(fn):
+            if isinstance(c, ast.Call) and u(c.func) in ("np.any", "any", "np.all", "all", "np.count_nonzero") and c.args:
+                for v in res(c.args[0]):
+                    if not _is_boolean_valued(v) and "numeric_value" in u(v) and not isinstance(v, (ast.GeneratorExp, ast.ListComp)):
+                        out.append(u(c)[:90])
+                        break
+        return out
+
+    if len(hits_in(ctl.body[0])) != 1 or hits_in(ctl.body[1]):
+        from ..loader import AnalysisError
+
+        raise AnalysisError("numeric-value truthiness: the controls are no longer recognised")
+    n, hits = 0, []
+    for short, names in ((MM, ("_BaseScaledCountMarginal", "_ScaleMean", "_ScaleMedian", "_ScaleMeanStddev", "_ScaleMeanStderr")), ("stripe/measure.py", ("_ScaledCounts",)), ("cubepart.py", ("_Slice", "_Strand"))):
+        for cname in names:
+            ci = ctx.repo.opt_cls(short, cname)
+            if ci is None:
+                continue
+            for m in ci.members.values():
+                if short == "cubepart.py" and "numeric" not in m.name and "scale" not in m.name:
+                    continue
+                n += 1
+                for t in hits_in(m.node):
+                    hits.append((f"{short}::{cname}.{m.name}", t))
+    ctx.count("scale-statistic members scanned for value truthiness", n)
+    ctx.require_min("scale-statistic members scanned for value truthiness", 20)
+    for where, t in hits:
+        ctx.violated("definedness.value-truthiness", where, t, "a test of WHICH categories have a value (`~np.isnan(values)`)", "a numeric value of 0 is a value: absent (None) only when no category has a numeric value")
+    if not hits:
+        ctx.held("definedness.value-truthiness", "scale-statistic classes", f"{n} members, no truth test of the numeric values themselves", "", "controls recognised")
